@@ -5,7 +5,8 @@
          returned what the query without WHERE returned -- wherever the reference semantics is
          defined.  model_agrees = the harness applied exactly the rewrites of Model/QuerySpec.v
          (every rewritten query is recomputed here), and, for single-table queries, the result
-         is the one the implementation model Model/PlanClass.v predicts.
+         is the one the implementation model Model/PlanClass.v predicts; for join queries outside
+         the recorded finding classes, the result is the reference result.
    Fold: the REAL ConstantFoldingRule applied to a plan; model_agrees = Model/ConstFold.v
          predicts what it did; spec_ok = what it did preserves the result on the case's table.
    Push: the REAL PredicatePushdownRule applied to Filter(Join); model_agrees = Model/Pushdown.v
@@ -128,12 +129,15 @@ Definition form_is_rewrite (d : db) (q : query) (f : form) : bool :=
       | None => false
       end
   end.
-(* single-table queries: the observed rows are the implementation model's *)
+(* the implementation model of a query: single-table queries follow Model/PlanClass.v (reference
+   semantics + the projection fast path); join queries OUTSIDE the recorded finding classes
+   follow the reference semantics (inside the classes the join executor is not modelled) *)
 Definition is_single (q : query) : bool := match q_from q with FTab _ => true | _ => false end.
+Definition impl_out (d : db) (q : query) : list orow := if is_single q then impl_single d q else q_out d q.
 Definition obs_is_impl (d : db) (dict : list row) (q : query) (r : res) : bool :=
-  if is_single q && q_defined d q then
+  if q_defined d q && (is_single q || (q_class d q =? 0)) then
     match r with
-    | RRows ix => match decode dict ix with Some t => obag_eqb (lift t) (impl_single d q) | None => false end
+    | RRows ix => match decode dict ix with Some t => obag_eqb (lift t) (impl_out d q) | None => false end
     | _ => false
     end
   else true.
